@@ -94,6 +94,8 @@ func (env *specEnv) eval(e SExpr) Val {
 		switch b := base.(type) {
 		case VStr:
 			return VInt{seqAt(b, i)}
+		case VCellSeq:
+			return fc.decodeCell(sel(b.Arr, add(b.Off, i)), b.Elem, T{}, T{})
 		case VSlice:
 			if isByteElem(b.Elem) {
 				return VInt{sel(sel(env.st.heap, b.Rgn), add(b.Off, i))}
@@ -509,8 +511,34 @@ func (env *specEnv) call(x SCall) Val {
 			return VInt{v.Len}
 		case VStr:
 			return VInt{v.Len}
+		case VCellSeq:
+			return VInt{v.Len}
 		}
 		panic(unsupported("len() of non-sequence in contract"))
+	case "sameheap":
+		// sameheap(): nothing has been written since the old state (bytes and cells)
+		if env.old == nil {
+			panic(unsupported("sameheap() without an old state"))
+		}
+		return VBool{and(eq(env.st.heap, env.old.heap), eq(env.st.cheap, env.old.cheap))}
+	case "cell":
+		// cell(s, i): the identity stored in cell i of a slice of cell-encoded structs (old(s): in the old state)
+		ae, senv := x.Args[0], env
+		if o, ok := ae.(SOld); ok && env.old != nil {
+			n := *env
+			n.st = env.old
+			ae, senv = o.X, &n
+		}
+		n2 := *senv
+		n2.keepSlice = true
+		i := asInt(env.eval(x.Args[1]))
+		switch sv := n2.eval(ae).(type) {
+		case VSlice:
+			return VInt{sel(sel(senv.st.cheap, sv.Rgn), add(sv.Off, i))}
+		case VCellSeq:
+			return VInt{sel(sv.Arr, add(sv.Off, i))}
+		}
+		panic(unsupported("cell() of a non-cell slice in contract"))
 	case "deref":
 		// deref(p): the value p points at (in the state the clause is evaluated in)
 		switch pv := arg(0).(type) {
@@ -635,7 +663,31 @@ func (env *specEnv) call(x SCall) Val {
 			panic(unsupported("spec function " + x.Fn + ": wrong number of arguments"))
 		}
 		var args []Val
+		var cellHeap T // byte heap the nested slices of a cell-sequence argument are read in
 		for i, p := range sf.Params {
+			if strings.HasPrefix(p.Type, "cells:") {
+				// a slice of cell-encoded structs: pass the cells of the state the argument denotes
+				ae, senv := x.Args[i], env
+				if o, ok := ae.(SOld); ok && env.old != nil {
+					n := *env
+					n.st = env.old
+					ae, senv = o.X, &n
+				}
+				n2 := *senv
+				n2.keepSlice = true
+				switch sv := n2.eval(ae).(type) {
+				case VSlice:
+					args = append(args, VCellSeq{sel(senv.st.cheap, sv.Rgn), sv.Off, sv.Len, sv.Elem})
+				case VCellSeq:
+					args = append(args, sv)
+				default:
+					panic(unsupported("spec function " + x.Fn + ": argument " + p.Name + " is not a slice of cells"))
+				}
+				if cellHeap.S == "" {
+					cellHeap = senv.st.heap
+				}
+				continue
+			}
 			v := arg(i)
 			if p.Type == "seq" {
 				v = env.seq(v)
@@ -653,7 +705,10 @@ func (env *specEnv) call(x SCall) Val {
 		fc.declareSpec(sf)
 		var ts []T
 		for i, p := range sf.Params {
-			if p.Type == "seq" {
+			if strings.HasPrefix(p.Type, "cells:") {
+				s := args[i].(VCellSeq)
+				ts = append(ts, s.Arr, s.Off, s.Len)
+			} else if p.Type == "seq" {
 				s := args[i].(VStr)
 				ts = append(ts, s.Arr, s.Off, s.Len)
 			} else if p.Type == "bool" {
@@ -668,6 +723,9 @@ func (env *specEnv) call(x SCall) Val {
 			fuel = T{env.fuelVar, SInt}
 		}
 		ts = append([]T{fuel}, ts...)
+		if cellHeap.S != "" {
+			ts = append(ts, cellHeap) // hidden last parameter: the byte heap for the nested slices
+		}
 		if sf.Ret == "bool" {
 			return VBool{app(SBool, "spec_"+sf.Name, ts...)}
 		}
@@ -684,7 +742,17 @@ func (fc *FnCtx) declareSpec(sf *SpecFunc) {
 	fc.specDecl[sf.Name] = true
 	var sorts, vars, names []string
 	bind := map[string]Val{}
+	hasCells := false
 	for _, p := range sf.Params {
+		if strings.HasPrefix(p.Type, "cells:") {
+			a, o, n := "p_"+p.Name+"_a", "p_"+p.Name+"_o", "p_"+p.Name+"_n"
+			sorts = append(sorts, SArr.String(), "Int", "Int")
+			vars = append(vars, fmt.Sprintf("(%s %s)", a, SArr), fmt.Sprintf("(%s Int)", o), fmt.Sprintf("(%s Int)", n))
+			names = append(names, a, o, n)
+			bind[p.Name] = VCellSeq{T{a, SArr}, T{o, SInt}, T{n, SInt}, fc.cellTypeByName(strings.TrimPrefix(p.Type, "cells:"))}
+			hasCells = true
+			continue
+		}
 		switch p.Type {
 		case "seq":
 			a, o, n := "p_"+p.Name+"_a", "p_"+p.Name+"_o", "p_"+p.Name+"_n"
@@ -708,8 +776,15 @@ func (fc *FnCtx) declareSpec(sf *SpecFunc) {
 	if sf.Ret == "bool" {
 		ret = "Bool"
 	}
-	fc.decls = append(fc.decls, fmt.Sprintf("(declare-fun spec_%s (Fuel %s) %s)", sf.Name, strings.Join(sorts, " "), ret))
 	env := &specEnv{fc: fc, bind: bind, pure: true, fuelVar: "fuel"}
+	if hasCells {
+		// hidden last parameter: the byte heap in which the nested slices of the cells are read
+		sorts = append(sorts, SHeap.String())
+		vars = append(vars, fmt.Sprintf("(p__H %s)", SHeap))
+		names = append(names, "p__H")
+		env.st = &State{heap: T{"p__H", SHeap}, pc: tTrue}
+	}
+	fc.decls = append(fc.decls, fmt.Sprintf("(declare-fun spec_%s (Fuel %s) %s)", sf.Name, strings.Join(sorts, " "), ret))
 	fc.inQuant++
 	body := env.eval(sf.Body)
 	fc.inQuant--
